@@ -101,6 +101,7 @@ type Case struct {
 	Warm     string `json:"warm"`               // cold | parse | query | one | targets
 	WarmOne  int    `json:"warm_one,omitempty"` // model warmed when Warm == "one"
 	Prepare  bool   `json:"prepare"`            // Config.PrepareStmt
+	Sess     string `json:"sess,omitempty"`     // "" | "call" | "goroutine": prepared statements through db.Session(&gorm.Session{PrepareStmt: true}) derived per call / once per goroutine from the shared handle (opened without Config.PrepareStmt)
 	SkipTx   bool   `json:"skip_tx"`            // Config.SkipDefaultTransaction
 	Procs    int    `json:"procs"`              // GOMAXPROCS during the concurrent run (0 = unchanged)
 	MaxOpen  int    `json:"max_open"`           // SetMaxOpenConns of the pool (0 = unbounded)
@@ -113,7 +114,11 @@ func (c *Case) String() string {
 	if c.Warm == "one" {
 		b.WriteString(":" + modelNames[c.WarmOne])
 	}
-	fmt.Fprintf(&b, " prepare=%v skiptx=%v procs=%d maxopen=%d", c.Prepare, c.SkipTx, c.Procs, c.MaxOpen)
+	fmt.Fprintf(&b, " prepare=%v", c.Prepare)
+	if c.Sess != "" {
+		b.WriteString(" session-prepare=per-" + c.Sess)
+	}
+	fmt.Fprintf(&b, " skiptx=%v procs=%d maxopen=%d", c.SkipTx, c.Procs, c.MaxOpen)
 	for g, p := range c.Programs {
 		parts := make([]string, len(p))
 		for i, o := range p {
@@ -254,6 +259,10 @@ var (
 	// operations whose statement cannot be prepared (missing table / column): the error must be the
 	// same as alone, also for a goroutine that waits for another goroutine's failing preparation
 	badKinds = []string{"badraw", "badtable", "badexec", "badcol"}
+	// column names as arguments (Select, Omit, Updates map keys, Where map keys, Pluck) in varied
+	// spellings: database name, field name, lowerCamel, UPPER_SNAKE, Title_Snake
+	spellKinds = []string{"spell", "spell", "spell"}
+	spellUses  = []string{"select-find", "select-updates", "omit-updates", "map-updates", "where-map", "pluck", "omit-create"}
 )
 
 // palette: which model families a goroutine may use (the relation-free models always).
@@ -284,6 +293,7 @@ func (p palette) pick(f1, f2 []int) []int {
 func genOp(t *rapid.T, pal palette, depth int) Op {
 	kinds := append([]string(nil), simpleKinds...)
 	kinds = append(kinds, badKinds...)
+	kinds = append(kinds, spellKinds...)
 	if pal.f1 || pal.f2 {
 		kinds = append(kinds, relKinds...)
 	}
@@ -312,6 +322,10 @@ func fillOp(t *rapid.T, o *Op, pal palette) {
 	case "badraw", "badtable", "badexec", "badcol":
 		o.M = mGadget
 		o.V = rapid.IntRange(0, 2).Draw(t, "text") // three distinct failing texts per kind
+	case "spell":
+		o.M = rapid.SampledFrom(pal.models()).Draw(t, "model")
+		o.B = rapid.IntRange(0, len(spellUses)-1).Draw(t, "use")
+		o.V = rapid.IntRange(0, 99).Draw(t, "columnAndSpelling")
 	case "tree":
 		o.M = rapid.SampledFrom(pal.pick([]int{mAuthor, mAuthor}, parcelOwners)).Draw(t, "owner")
 		o.B = rapid.IntRange(1, nKeys).Draw(t, "b")
@@ -391,11 +405,18 @@ func genCase(t *rapid.T) *Case {
 	if c.Warm == "one" {
 		c.WarmOne = rapid.IntRange(0, nModels-1).Draw(t, "warmOne")
 	}
-	c.Prepare = rapid.Bool().Draw(t, "prepare")
+	switch rapid.SampledFrom([]string{"off", "off", "config", "config", "call", "goroutine"}).Draw(t, "prepare") {
+	case "config":
+		c.Prepare = true
+	case "call":
+		c.Sess = "call"
+	case "goroutine":
+		c.Sess = "goroutine"
+	}
 	c.SkipTx = rapid.Bool().Draw(t, "skipTx")
 	c.Procs = rapid.SampledFrom([]int{0, 0, 1, 2, 4}).Draw(t, "procs")
 	c.MaxOpen = rapid.SampledFrom([]int{0, 0, 0, 1, 2, 4}).Draw(t, "maxOpen")
-	if c.Prepare && c.MaxOpen > 0 && harness.OpenClass("C07", classBoundedPool) {
+	if (c.Prepare || c.Sess != "") && c.MaxOpen > 0 && harness.OpenClass("C07", classBoundedPool) {
 		// listed finding: PrepareStmt on a bounded pool can deadlock (a transaction that holds the last
 		// connection waits for a preparation that waits for a connection); keep the pool unbounded
 		evid.Excluded(classBoundedPool)
@@ -545,6 +566,52 @@ func changes(m, v int) map[string]interface{} {
 	panic("harness: changes")
 }
 
+// modelColumns: field name and column name of the non-key columns a "spell" operation may name.
+var modelColumns = [nModels][][2]string{
+	mCompany: {{"Name", "name"}},
+	mAuthor:  {{"Name", "name"}, {"Age", "age"}, {"CompanyID", "company_id"}},
+	mProfile: {{"Bio", "bio"}, {"AuthorID", "author_id"}},
+	mBook:    {{"Title", "title"}, {"Pages", "pages"}, {"AuthorID", "author_id"}},
+	mReview:  {{"Stars", "stars"}, {"BookID", "book_id"}},
+	mTag:     {{"Label", "label"}},
+	mGadget:  {{"Name", "name"}, {"Qty", "qty"}},
+	mWidget:  {{"Code", "code"}, {"Weight", "weight"}, {"DeletedAt", "deleted_at"}},
+	mParcel:  {{"Label", "label"}, {"Weight", "weight"}, {"DepotID", "depot_id"}, {"CourierID", "courier_id"}, {"SorterID", "sorter_id"}},
+	mDepot:   {{"Name", "name"}},
+	mCourier: {{"Name", "name"}},
+	mCustoms: {{"Name", "name"}},
+	mSorter:  {{"Name", "name"}},
+}
+
+// spelling: database name, field name, lowerCamel, UPPER_SNAKE, Title_Snake.
+func spelling(col [2]string, k int) string {
+	switch k % 5 {
+	case 0:
+		return col[1]
+	case 1:
+		return col[0]
+	case 2:
+		return strings.ToLower(col[0][:1]) + col[0][1:]
+	case 3:
+		return strings.ToUpper(col[1])
+	}
+	parts := strings.Split(col[1], "_")
+	for i, p := range parts {
+		parts[i] = strings.ToUpper(p[:1]) + p[1:]
+	}
+	return strings.Join(parts, "_")
+}
+
+func columnValue(m int, column string, g, v int) interface{} {
+	if x, ok := changes(m, v%10)[column]; ok {
+		return x
+	}
+	if strings.HasSuffix(column, "_id") {
+		return keyOf(g, 1+v%nKeys)
+	}
+	return nil // deleted_at
+}
+
 func firstColumn(m int) string {
 	return [nModels]string{"name", "name", "bio", "title", "stars", "label", "name", "code", "label", "name", "name", "name", "name"}[m]
 }
@@ -633,6 +700,39 @@ func exec(db *gorm.DB, g int, o Op) string {
 		v := buildSlice(o.M, g, []int{o.A, 1 + o.A%nKeys}, o.V)
 		r := db.Create(v)
 		return fmt.Sprintf("%s ra=%d %s", errText(r.Error), r.RowsAffected, render(v))
+	case "spell":
+		col := modelColumns[o.M][o.V%len(modelColumns[o.M])]
+		name := spelling(col, o.V/len(modelColumns[o.M]))
+		val := columnValue(o.M, col[1], g, o.V)
+		post := fmt.Sprintf(" via %s(%s)", spellUses[o.B], name)
+		switch spellUses[o.B] {
+		case "select-find":
+			out := newSlice(o.M)
+			r := inRange(db.Select("id", name), o.M, g).Order(modelTables[o.M] + ".id").Find(out)
+			return fmt.Sprintf("%s ra=%d %s", errText(r.Error), r.RowsAffected, render(out)) + post
+		case "select-updates":
+			r := db.Model(build(o.M, g, o.A, 0, 0)).Select(name).Updates(changes(o.M, o.V%10))
+			return fmt.Sprintf("%s ra=%d", errText(r.Error), r.RowsAffected) + post
+		case "omit-updates":
+			r := db.Model(build(o.M, g, o.A, 0, 0)).Omit(name).Updates(changes(o.M, o.V%10))
+			return fmt.Sprintf("%s ra=%d", errText(r.Error), r.RowsAffected) + post
+		case "map-updates":
+			r := db.Model(build(o.M, g, o.A, 0, 0)).Updates(map[string]interface{}{name: val})
+			return fmt.Sprintf("%s ra=%d", errText(r.Error), r.RowsAffected) + post
+		case "where-map":
+			out := newSlice(o.M)
+			r := inRange(db, o.M, g).Where(map[string]interface{}{name: val}).Order(modelTables[o.M] + ".id").Find(out)
+			return fmt.Sprintf("%s ra=%d %s", errText(r.Error), r.RowsAffected, render(out)) + post
+		case "pluck":
+			var vals []string
+			r := inRange(db.Model(newModel(o.M)), o.M, g).Order(modelTables[o.M]+".id").Pluck(name, &vals)
+			return fmt.Sprintf("%s %q", errText(r.Error), vals) + post
+		case "omit-create":
+			v := build(o.M, g, o.A, 0, o.V%10)
+			r := db.Omit(name).Create(v)
+			return fmt.Sprintf("%s ra=%d %s", errText(r.Error), r.RowsAffected, render(v)) + post
+		}
+		panic("harness: spell use")
 	case "badraw":
 		var n []int64
 		r := db.Raw(fmt.Sprintf("SELECT id FROM c07_missing_%d WHERE id = ?", o.V), keyOf(g, o.A)).Scan(&n)
@@ -930,7 +1030,10 @@ type outcome struct {
 	stalled string     // non-empty: no operation finished for stallLimit; holds the goroutine stacks
 }
 
-func runProgram(db *gorm.DB, g int, prog []Op, res []string) {
+func runProgram(c *Case, db *gorm.DB, g int, prog []Op, res []string) {
+	if c.Sess == "goroutine" {
+		db = db.Session(&gorm.Session{PrepareStmt: true})
+	}
 	for i, o := range prog {
 		func() {
 			defer func() {
@@ -938,7 +1041,11 @@ func runProgram(db *gorm.DB, g int, prog []Op, res []string) {
 					res[i] = fmt.Sprintf("PANIC: %v", p)
 				}
 			}()
-			res[i] = exec(db, g, o)
+			h := db
+			if c.Sess == "call" {
+				h = db.Session(&gorm.Session{PrepareStmt: true})
+			}
+			res[i] = exec(h, g, o)
 		}()
 	}
 }
@@ -1002,7 +1109,7 @@ func runConcurrent(c *Case) outcome {
 			go func(g, lo, hi int) {
 				defer wg.Done()
 				<-start
-				runProgram(d.DB, g, c.Programs[g][lo:hi], out.results[g][lo:hi])
+				runProgram(c, d.DB, g, c.Programs[g][lo:hi], out.results[g][lo:hi])
 			}(g, lo, hi)
 		}
 		close(start)
@@ -1083,7 +1190,7 @@ func runSerial(c *Case) outcome {
 			d.betweenPhases(c, pi)
 			for g := 0; g < c.G; g++ {
 				lo, hi := slice(c.Programs[g], ph)
-				runProgram(d.DB, g, c.Programs[g][lo:hi], out.results[g][lo:hi])
+				runProgram(c, d.DB, g, c.Programs[g][lo:hi], out.results[g][lo:hi])
 			}
 		}
 	}()
@@ -1220,7 +1327,7 @@ func runCase(rt *rapid.T) {
 	default:
 		cl = append(cl, "G:17-32")
 	}
-	cl = append(cl, "cache:"+c.Warm, fmt.Sprintf("prepare:%v", c.Prepare), fmt.Sprintf("skipdefaulttx:%v", c.SkipTx), fmt.Sprintf("procs:%d", c.Procs), fmt.Sprintf("maxopen:%d", c.MaxOpen))
+	cl = append(cl, "cache:"+c.Warm, "prepare:"+map[bool]string{false: "off", true: "config"}[c.Prepare]+map[string]string{"": "", "call": "+session-per-call", "goroutine": "+session-per-goroutine"}[c.Sess], fmt.Sprintf("skipdefaulttx:%v", c.SkipTx), fmt.Sprintf("procs:%d", c.Procs), fmt.Sprintf("maxopen:%d", c.MaxOpen))
 	cold := c.Warm == "cold" || c.Warm == "one" || c.Warm == "targets"
 	same := 0
 	for _, n := range firstUse {
@@ -1267,7 +1374,7 @@ func runCase(rt *rapid.T) {
 }
 
 func TestC07(t *testing.T) {
-	evid.Rule("C07: G in 2..32 goroutines (four size buckets) released by one barrier, each running 1-8 operations (Create single/batch/with nested associations, Save, Find, First, Count, Pluck, Preload incl. nested, relation Joins, Update, Updates, Delete, Transaction blocks with nested blocks and rollback, Association Append/Replace/Delete/Clear/Find/Count, and statements that cannot be prepared: Raw/Table/Exec on a missing table, a missing column - three texts each, shared by all goroutines) through one shared *gorm.DB over a cyclic family of six related model types (belongs-to, has-one, has-many, many-to-many), a second family (one target type with four has-many/has-one owner types) and two relation-free types, on explicit keys private to the goroutine; in a third of the cases all goroutines start with the same statement text (failing or good); schema cache cold / one type parsed / only the shared target type parsed and queried (owners first used concurrently) / all parsed / all queried before the barrier; PrepareStmt on/off; default transactions on/off; pool unbounded or 1/2/4; GOMAXPROCS 1/2/4/default; generated Gosched points. Judged by the race detector (report count read after every case), by equality of every result (error texts, recovered panics included) and of all final rows with a serial run on a fresh database, and by a deadlock watchdog. Non-trivial = part of the schema cache is cold at the barrier (G >= 2 always), or warm cache with >= 4 goroutines and >= 1 association/preload/joins/nested-create operation; distinct = configuration + programs")
+	evid.Rule("C07: G in 2..32 goroutines (four size buckets) released by one barrier, each running 1-8 operations (Create single/batch/with nested associations, Save, Find, First, Count, Pluck, Preload incl. nested, relation Joins, Update, Updates, Delete, Transaction blocks with nested blocks and rollback, Association Append/Replace/Delete/Clear/Find/Count, and statements that cannot be prepared: Raw/Table/Exec on a missing table, a missing column - three texts each, shared by all goroutines; column names passed to Select/Omit/Updates(map)/Where(map)/Pluck in five spellings: database name, field name, lowerCamel, UPPER_SNAKE, Title_Snake) through one shared *gorm.DB over a cyclic family of six related model types (belongs-to, has-one, has-many, many-to-many), a second family (one target type with four has-many/has-one owner types) and two relation-free types, on explicit keys private to the goroutine; in a third of the cases all goroutines start with the same statement text (failing or good); schema cache cold / one type parsed / only the shared target type parsed and queried (owners first used concurrently) / all parsed / all queried before the barrier; PrepareStmt off / Config.PrepareStmt / db.Session(&gorm.Session{PrepareStmt: true}) derived per call or once per goroutine from a handle opened without it; default transactions on/off; pool unbounded or 1/2/4; GOMAXPROCS 1/2/4/default; generated Gosched points. Judged by the race detector (report count read after every case), by equality of every result (error texts, recovered panics included) and of all final rows with a serial run on a fresh database, and by a deadlock watchdog. Non-trivial = part of the schema cache is cold at the barrier (G >= 2 always), or warm cache with >= 4 goroutines and >= 1 association/preload/joins/nested-create operation; distinct = configuration + programs")
 	evid.Assume("SQLite's single-writer rule is hidden by the harness: connections run read_uncommitted and writers queue on one harness mutex (BEGIN..COMMIT or one autocommit write); write paths of two goroutines therefore overlap only outside transactions (SkipDefaultTransaction cases)")
 	evid.Assume("the runtime's schedule is sampled, not enumerated; the race detector reports unsynchronised conflicting accesses it observes within its history window")
 	if !raceEnabled {
